@@ -180,6 +180,10 @@ fn violation(rep: &mut Report, mut props: Vec<&'static str>, sig: &str, what: St
 
 /// Run one call and judge the line handed to the sink. Returns the line if one was emitted.
 pub fn check_case(rep: &mut Report, rig: &Rig, cfg: &ClientCfg, row: &Row, form: Form, key: &str, val: &Val, steps: &[Step]) -> Option<String> {
+    if rep.full() {
+        // the instance has failed already: no point in evaluating (and rendering) thousands more cases
+        return None;
+    }
     {
         let mut s = rig.sink.0.lock().unwrap();
         s.emits.clear();
